@@ -25,9 +25,15 @@ Model/Market.vos Model/Market.vok Model/Market.required_vos: Model/Market.v Lib/
 Proofs/EnglishProofs.vo Proofs/EnglishProofs.glob Proofs/EnglishProofs.v.beautified Proofs/EnglishProofs.required_vo: Proofs/EnglishProofs.v Lib/Base.vo Lib/DecArith.vo Lib/DecFacts.vo Lib/FLedger.vo Model/English.vo
 Proofs/EnglishProofs.vio: Proofs/EnglishProofs.v Lib/Base.vio Lib/DecArith.vio Lib/DecFacts.vio Lib/FLedger.vio Model/English.vio
 Proofs/EnglishProofs.vos Proofs/EnglishProofs.vok Proofs/EnglishProofs.required_vos: Proofs/EnglishProofs.v Lib/Base.vos Lib/DecArith.vos Lib/DecFacts.vos Lib/FLedger.vos Model/English.vos
+Proofs/LimitBidProofs.vo Proofs/LimitBidProofs.glob Proofs/LimitBidProofs.v.beautified Proofs/LimitBidProofs.required_vo: Proofs/LimitBidProofs.v Lib/Base.vo Lib/DecArith.vo Lib/DecFacts.vo Lib/FLedger.vo Model/LimitBid.vo
+Proofs/LimitBidProofs.vio: Proofs/LimitBidProofs.v Lib/Base.vio Lib/DecArith.vio Lib/DecFacts.vio Lib/FLedger.vio Model/LimitBid.vio
+Proofs/LimitBidProofs.vos Proofs/LimitBidProofs.vok Proofs/LimitBidProofs.required_vos: Proofs/LimitBidProofs.v Lib/Base.vos Lib/DecArith.vos Lib/DecFacts.vos Lib/FLedger.vos Model/LimitBid.vos
 Proofs/MarketProofs.vo Proofs/MarketProofs.glob Proofs/MarketProofs.v.beautified Proofs/MarketProofs.required_vo: Proofs/MarketProofs.v Lib/Base.vo Model/Market.vo
 Proofs/MarketProofs.vio: Proofs/MarketProofs.v Lib/Base.vio Model/Market.vio
 Proofs/MarketProofs.vos Proofs/MarketProofs.vok Proofs/MarketProofs.required_vos: Proofs/MarketProofs.v Lib/Base.vos Model/Market.vos
+Properties/C11.vo Properties/C11.glob Properties/C11.v.beautified Properties/C11.required_vo: Properties/C11.v Lib/Base.vo Lib/DecArith.vo Lib/DecFacts.vo Lib/FLedger.vo Model/English.vo Model/LimitBid.vo Proofs/EnglishProofs.vo Proofs/LimitBidProofs.vo
+Properties/C11.vio: Properties/C11.v Lib/Base.vio Lib/DecArith.vio Lib/DecFacts.vio Lib/FLedger.vio Model/English.vio Model/LimitBid.vio Proofs/EnglishProofs.vio Proofs/LimitBidProofs.vio
+Properties/C11.vos Properties/C11.vok Properties/C11.required_vos: Properties/C11.v Lib/Base.vos Lib/DecArith.vos Lib/DecFacts.vos Lib/FLedger.vos Model/English.vos Model/LimitBid.vos Proofs/EnglishProofs.vos Proofs/LimitBidProofs.vos
 Properties/C17.vo Properties/C17.glob Properties/C17.v.beautified Properties/C17.required_vo: Properties/C17.v Lib/Base.vo Model/Market.vo Proofs/MarketProofs.vo
 Properties/C17.vio: Properties/C17.v Lib/Base.vio Model/Market.vio Proofs/MarketProofs.vio
 Properties/C17.vos Properties/C17.vok Properties/C17.required_vos: Properties/C17.v Lib/Base.vos Model/Market.vos Proofs/MarketProofs.vos
